@@ -190,6 +190,28 @@ theorem tx_hash_binds {H : Type} (hash : Bytes → H) (hinj : ∀ a b, hash a = 
   simp at f1 f2 f3
   exact ⟨txData_norm_binds _ _ ht hu f1, f2, b2n_injective f3⟩
 
+/-! ### memoised hashes (`Transaction.hash/hash128/from`, `Block.hash`, …) -/
+
+/-- a memo is a function of the encoding: whatever a node decodes from the object's bytes has the same hash, so a
+live object whose memo differs from `hash (encode …)` of its current fields disagrees with every other node
+(what the harness family "memo consistency under API sequences" tests on the real objects) -/
+theorem memo_stable_over_wire {H : Type} (hash : Bytes → H) (s : Schema) (m m' : Msg) (d : Nat)
+    (hc : confMsg s m = true) (hd : depthMsg m < d) (h : decode d s (encode s m) = some m') :
+    hash (encode s m') = hash (encode s m) := by
+  rw [encode_canonical s m m' d hc hd h]
+
+/-- `types.SignTx` (transaction_signing.go:13-30): a fresh object, the eight data fields copied, new signature,
+`UseRlp` not carried over, no memo -/
+def signTxModel (t : TxFull) (sig : Bytes) : TxFull := ⟨t.data, sig, false⟩
+
+/-- the hash memoised on the input of a re-signing is never the hash of its result when the signature changed:
+carrying the memo over (struct copy) makes the object report a hash no other node computes -/
+theorem resign_changes_hash {H : Type} (hash : Bytes → H) (hinj : ∀ a b, hash a = hash b → a = b)
+    (t : TxFull) (sig : Bytes) (hw : t.data.WF) (hne : sig ≠ t.signature) :
+    hash (encode txSchema (txMsg (signTxModel t sig))) ≠ hash (encode txSchema (txMsg t)) := by
+  intro h
+  exact hne (tx_hash_binds hash hinj (signTxModel t sig) t hw hw h).2.1
+
 /-! ### the vote (`types.go:706`) -/
 
 theorem voteDataMsg_wf (v : VoteSigned) : wfMsg voteDataSchema (voteDataMsg v) = true := by
